@@ -48,6 +48,7 @@
 #endif
 
 #include "archive.h"
+#include "archive_private.h"
 
 struct read_fd_data {
 	int	 fd;
@@ -69,6 +70,8 @@ archive_read_open_fd(struct archive *a, int fd, size_t block_size)
 	struct read_fd_data *mine;
 	void *b;
 
+	archive_check_magic(a, ARCHIVE_READ_MAGIC, ARCHIVE_STATE_NEW,
+	    "archive_read_open_fd");
 	archive_clear_error(a);
 	if (fstat(fd, &st) != 0) {
 		archive_set_error(a, errno, "Can't stat fd %d", fd);
